@@ -1438,6 +1438,17 @@ def Calc_projector(oldMesh: Mesh, newMesh: Mesh) -> sp.csr_matrix:
 
     tic.Tac("Mesh", "Mapping between meshes", False)
 
+    # A node lying on an edge or at a vertex of the old mesh is detected by every element that shares it,
+    # and its reference coordinates are those of the last of them: keep it in that element only
+    # (otherwise its row of the projector adds one interpolation per element).
+    owner_n = np.full(newMesh.Nn, -1, dtype=int)
+    for element, nodes in zip(detectedElements_e, connect_e_n):
+        owner_n[np.asarray(nodes, dtype=int)] = element
+    connect_e_n = [
+        np.asarray(nodes, dtype=int)[owner_n[np.asarray(nodes, dtype=int)] == element]
+        for element, nodes in zip(detectedElements_e, connect_e_n)
+    ]
+
     # Evaluation of shape functions
     Ntild = oldMesh.groupElem._N()
     nPe = oldMesh.groupElem.nPe
